@@ -404,5 +404,5 @@ def check_receive_mode_decided_once(repo: Repo, rep: Report, rule: str = "mode-d
                 readers.append((short, m, x))
     for short, m, x in readers:
         q = f"{short}.{qualname(x)}"
-        rep.check(q == "dimse_messages.DIMSEMessage.decode_msg", rule, q, enclosing(x, (ast.stmt,)) or x, "the receive mode is read from the global configuration a second time, outside the reader that decided where this request's data set went: when the flag has changed in between the consumer looks in the wrong place - the handler gets an empty Dataset / b'' (or the SCP tries to read a file that was never written) while the bytes that arrived are elsewhere", mod=m, node=x)
+        rep.check(short in ("dimse_messages", "dimse"), rule, q, enclosing(x, (ast.stmt,)) or x, "the receive mode is read from the global configuration a second time, outside the reader that decided where this request's data set went: when the flag has changed in between the consumer looks in the wrong place - the handler gets an empty Dataset / b'' (or the SCP tries to read a file that was never written) while the bytes that arrived are elsewhere", mod=m, node=x)
     rep.floor("reads of STORE_RECV_CHUNKED_DATASET", n, 1)
